@@ -18,9 +18,9 @@ def check_C15(tier, seed):
     quick = tier == "quick"
     seqs, gst = V.gen("SeqGen.tla", "SeqGen_mig4.cfg" if quick else "SeqGen_mig5.cfg", "C15")
     vecs, gst2 = V.gen("SeqGen.tla", "SeqGen_fates6.cfg", "C15f")
-    n_seq = 500 if quick else 6000
-    n_vec = 150 if quick else 1000
-    n_rand = 150 if quick else 2000
+    n_seq = 350 if quick else 6000
+    n_vec = 100 if quick else 1000
+    n_rand = 100 if quick else 2000
     scripts = [scen_c15.migration_script(r, i, s) for i, s in enumerate(props.sample(seqs, n_seq, r))]
     for v in props.sample(vecs, n_vec, r):
         scripts.append(scen_c15.migration_script(r, len(scripts), [r.choice(["port", "ip", "spoof"]), r.choice(["wait", "back", "spoof"])], fate_vec=v))
